@@ -256,7 +256,9 @@ LARGE_SPECS = [
 
 def _nested_delimited_specs() -> st.SearchStrategy:
     """Delimited inside delimited (2..3 levels), the nested object last, in the middle or in an array, with tight and slack extents."""
-    prim = st.sampled_from([["uint", 8, "sat"], ["uint", 16, "sat"], ["bool"], ["int", 5], ["var", ["uint", 8, "sat"], 2], ["var", ["byte"], 3]])
+    prim = st.sampled_from([["uint", 8, "sat"], ["uint", 16, "sat"], ["bool"], ["int", 5], ["var", ["uint", 8, "sat"], 2], ["var", ["byte"], 3],
+                            # octet arrays of several elements: a payload cut short by its header may end in front of, or inside, one of them
+                            ["fixed", ["uint", 8, "sat"], 4], ["fixed", ["byte"], 3], ["var", ["utf8"], 5], ["uint", 8, "sat"]])
     slack = st.sampled_from([0, 0, 0, 1, 2])
 
     def wrap(inner: st.SearchStrategy) -> st.SearchStrategy:
